@@ -122,6 +122,26 @@ HISTORY = {
     "C18-8": ("missed (round 4, wave 2)", "C09 sql-columns / C18 last-message-pointer `snapshot-restore/<table>/tuple-positions-agree` (per tuple position, the column the snapshot writer read = the column the restore binds)"),
     "C19-8": ("caught, with a third, spurious key (round 4, wave 2; a snapshot builder that is handed the locked state)", "C19 snapshot-one-instant: a builder taking `&MdkMemoryStorageInner` is judged at its callers (exactly one guard held across the call)"),
     "C20-8": ("missed (round 4, wave 2)", "C20 prune-after-push / C11 hydration-coverage `list-oldest-first` (SQLite ORDER BY created_at ASC, memory sort key = created_at)"),
+    "C01-9": ("caught by C11 / C19 / C20 (round 5)", "C01 now shares `hydration-coverage/*/hydrate-first` with C11"),
+    "C02-9": ("caught by C07 (round 5)", "C02 now shares `own-commit-shortcut/decision` with C07"),
+    "C03-9": ("caught (round 5)", ""),
+    "C04-9": ("missed (round 5)", "C04 author-bound `AuthorMismatch/decides-every-ok`: the guard function cannot return Ok without the comparison having come out equal"),
+    "C05-9": ("caught (round 5)", ""),
+    "C06-9": ("caught (round 5)", ""),
+    "C07-9": ("missed (round 5)", "C07 `resave-evicts-nothing`: removals in memory save_message only on the id-absent side"),
+    "C08-9": ("missed (round 5)", "C08 sync-field-wiring `relays/every-ok-path`: every Ok return of the sync replaced the relay set (or found it equal as a whole set)"),
+    "C09-9": ("caught by C12 (round 5)", "C09 now shares the restore's `sql-bracket` obligations with C12"),
+    "C10-9": ("caught by C09 / C12 (round 5)", ""),
+    "C11-9": ("caught by C01 / C07 (round 5)", ""),
+    "C12-9": ("caught (round 5)", ""),
+    "C13-9": ("missed (round 5)", "C13 permissions `chmod-after-mkdir/<fn>`: whatever creates a directory restricts it before returning Ok"),
+    "C14-9": ("caught (round 5)", ""),
+    "C15-9": ("missed (round 5)", "C15 key-package-bound `strict-numerals/<fn>`: a tag value handed to a sign-tolerant std integer parser was checked to be digits only"),
+    "C16-9": ("caught (round 5)", ""),
+    "C17-9": ("caught (round 5)", ""),
+    "C18-9": ("missed (round 5)", "C18 last-message-pointer `searches-every-page`: the page-length stop test comes after the search of that page"),
+    "C19-9": ("caught (round 5)", ""),
+    "C20-9": ("caught (round 5)", ""),
 }
 rows = ["| id | change (needs) | first | now caught by | strengthened |", "|----|----------------|-------|---------------|--------------|"]
 sd = os.path.join(VERIF, "seeded")
